@@ -36,7 +36,10 @@ T = [
  ("PutBucketActions","PutBucketVersioning","$1",'""',"PutBucketVersioningAction",W,1,0),
  ("PutBucketActions","PutObjectLockConfiguration","$1",'""',"PutBucketObjectLockConfigurationAction",W,1,0),
  ("PutBucketActions","PutBucketCors","bucket",'""',"PutBucketCorsAction",W,1,0),
- ("PutBucketActions","PutBucketPolicy","$1",'""',"PutBucketPolicyAction",W,1,0),
+ # S3: a bucket policy can be written only by the bucket owner (or under a policy that allows it); no ACL permission
+ # confers it. The nearest ACL permission of the gateway is WRITE_ACP (who may rewrite the ACL has the owner's power
+ # anyway). The controllers asked for WRITE until the repair recorded in known_findings.json.
+ ("PutBucketActions","PutBucketPolicy","$1",'""',"PutBucketPolicyAction",WA,1,0),
  ("PutBucketActions","PutBucketAcl","$1",'""',"PutBucketAclAction",WA,1,0),
  ("PutBucketActions","CreateBucket",None,None,None,None,1,0),
  ("PutActions","PutObjectTagging","$1","$2","PutObjectTaggingAction",W,1,0),
@@ -49,7 +52,7 @@ T = [
  ("PutActions","PutObject",IB,IK,"PutObjectAction",W,1,1),
  ("DeleteBucket","DeleteBucketTagging","$1",'""',"PutBucketTaggingAction",W,1,0),
  ("DeleteBucket","DeleteBucketOwnershipControls","$1",'""',"PutBucketOwnershipControlsAction",W,1,0),
- ("DeleteBucket","DeleteBucketPolicy","$1",'""',"DeleteBucketPolicyAction",W,1,0),
+ ("DeleteBucket","DeleteBucketPolicy","$1",'""',"DeleteBucketPolicyAction",WA,1,0),
  ("DeleteBucket","DeleteBucketCors","$1",'""',"PutBucketCorsAction",W,1,0),
  ("DeleteBucket","DeleteBucket","$1",'""',"DeleteBucketAction",W,1,0),
  ("DeleteObjects","DeleteObjects",IB,"EACH","DeleteObjectAction",W,1,1),
